@@ -152,6 +152,23 @@ Theorem C04_adaptive_stop_rule_not_scale_free : forall c, ~ c == 0 -> forall K l
 Proof. exact ad_cfn_scale. Qed.
 Print Assumptions C04_adaptive_stop_rule_not_scale_free.
 
+(* fewer than 3 tapers (NW = 1, or low_bias leaving 1-2 tapers): adaptive=True falls back to the
+   weights sqrt(lam_k), so the estimate IS the fixed eigenvalue-weighted one and integrates to the
+   lam-weighted power of the tapered signal *)
+Theorem C04_adaptive_few_tapers_is_fixed : forall m dflt sd N K Fs rt lam Y f, (K < 3)%nat ->
+  mt_psd_adaptive_all m dflt sd N K Fs rt lam Y f = mt_psd sd N K Fs (fun k _ => rt k) Y f.
+Proof. exact adaptive_few_is_fixed. Qed.
+Theorem C04_adaptive_few_tapers_parseval : forall m dflt sd N K Fs rt lam (Y : nat -> sig) (E : nat -> Q),
+  (K < 3)%nat -> (0 < N)%nat -> ~ Fs == 0 ->
+  (forall k, (k < K)%nat -> rt k * rt k == lam k) ->
+  ~ sumn lam K == 0 ->
+  (forall k, (k < K)%nat -> sumn (fun f => cnorm2 (Y k f)) N == inj N * E k) ->
+  (sd = OneSided -> forall k f, (k < K)%nat -> (0 < f < N)%nat -> Y k (N - f)%nat =c= cconj (Y k f)) ->
+  sumn (fun f => mt_psd_adaptive_all m dflt sd N K Fs rt lam Y f * (Fs / inj N)) (out_len sd N)
+  == sumn (fun k => lam k * E k) K / sumn lam K.
+Proof. exact adaptive_few_parseval. Qed.
+Print Assumptions C04_adaptive_few_tapers_parseval.
+
 (* REFUTED sub-claim (known finding C04/multi_taper/adaptive-onesided-fold): with adaptive weights the
    one-sided estimate is not the folded two-sided one — the one-sided iteration works on doubled
    spectra but an undoubled broadband-bias term, so it produces other weights.  Witness: 3 tapers,
